@@ -134,7 +134,7 @@ def core_models(tier, d):
 
     jobs = [
         # (1) N2 complete, all invariants, witness behaviours per transition class
-        ("n2_classes", "MC_GcHeap", hc("classes", n_obj=2, many=True), 3, None, 9000),
+        ("n2_classes", "MC_GcHeap", hc("classes", n_obj=2, many=True), 3 if quick else 8, None, 9000),
         # (2) every object kind / storage path of C06, behaviours of bounded length
         ("n2_kinds", "MC_GcHeap", hc("classes", n_obj=2, kinds=ALLK, max_ops=5 if quick else 6, barrier_only=True, vias=VIAS),
          2, None, 12000),
@@ -144,7 +144,7 @@ def core_models(tier, d):
         # (4) dynamic root sets (C14): a set, two nodes, two handles; stash / clone / drop / slot reuse.
         #     Witnesses per PAIR of transition classes, so that what follows a stash is replayed too.
         ("n3_dyn", "MC_GcHeap", hc("pairs", n_obj=3, max_handles=2, finalize=False, budgets=(1,), grans=("P1",),
-                                   weak=False, unlink=False, max_ops=6 if quick else 7), 1, None, 14000),
+                                   weak=False, unlink=False, max_ops=6), 1, None, 14000),
         # (4a) dynamic roots, PATH diversity: the implementation's slot table has history the model's state does not
         #      (a recycled slot), so covering states or classes is not enough; seeded random walks (tlc -simulate)
         ("n2_dynwalk", "MC_GcHeap", hc("walks", n_obj=2, max_handles=2, finalize=False, budgets=(1,), grans=("P1",), weak=False,
@@ -154,11 +154,11 @@ def core_models(tier, d):
         ("n2_pairs", "MC_GcHeap", hc("pairs", n_obj=2, many=True, max_ops=5 if quick else 6), 1, None, 12000),
         # (4c) a RefLock frozen by a leaked RefMut (safe code): tracing it must panic, never skip it
         ("n2_leak", "MC_GcHeap", hc("pairs", n_obj=2, leak=True, finalize=False, drop=False, debt_calls=False, budgets=(1,),
-                                    grans=("P1",), max_ops=5 if quick else 7), 1, None, 9000),
+                                    grans=("P1",), max_ops=5 if quick else 6), 1, None, 9000),
         # (4d) a user destructor that panics while the collector (or the arena's drop) runs it; the collection is
         #      resumed afterwards: nothing is destructed twice, is_dropped stays exact
         ("n2_dfaults", "MC_GcHeap", hc("classes", n_obj=2, dfault_ats=(0, 1), finalize=False, grans=("P1",),
-                                       max_ops=6 if quick else 8), 2, None, 9000),
+                                       max_ops=6 if quick else 7), 2, None, 9000),
         # (4e) three objects, DEEP: exhaustive exploration (pair witnesses) of what can follow a scripted prelude that
         #      builds a heap breadth-first search cannot afford to reach (a dead shell weakly held by one of two rooted
         #      nodes; weakly held garbage one cycle earlier; a chain that survived a cycle)
@@ -180,13 +180,13 @@ def core_models(tier, d):
     ]
     if not quick:
         # (6) N2 complete: one behaviour per distinct state (state cover)
-        jobs.append(("n2_states", "MC_GcHeap", hc("states", n_obj=2), None, None, 3000))
+        jobs.append(("n2_states", "MC_GcHeap", hc("states", n_obj=2), None, None, 9000))
         # (7) N3, every behaviour of at most 6 operations, class witnesses
-        jobs.append(("n3_k6", "MC_GcHeap", hc("classes", n_obj=3, max_ops=6, many=True), 3, None, 3600))
+        jobs.append(("n3_k5", "MC_GcHeap", hc("classes", n_obj=3, max_ops=5, many=True), 3, None, 9000))
     par = 3
     from concurrent.futures import ThreadPoolExecutor
     # longest first, so that the two lanes finish together
-    first = ["n3_dyn", "n3_k6", "n2_states", "n2_classes", "n2_pairs", "n3_weakgarbage", "n2_kinds", "n3_chain"]
+    first = ["n2_pairs", "n2_kinds", "n3_dyn", "n3_k5", "n2_states", "n2_classes", "n3_weakgarbage", "n2_faults", "n3_chain"]
     sched = sorted(jobs, key=lambda j: first.index(j[0]) if j[0] in first else len(first))
     with ThreadPoolExecutor(max_workers=par) as ex:
         list(ex.map(lambda j: run(*j), sched))
@@ -474,7 +474,7 @@ def pacing_models(tier, d):
     runs, files = [], []
     jobs = []
     for name, pq in PACINGS.items():
-        jobs.append((name, pq, 6 if tier == "quick" else 8, (16, 48) if tier == "quick" else (16, 48, -16)))
+        jobs.append((name, pq, 6 if tier == "quick" else 7, (16, 48) if tier == "quick" else (16, 48, -16)))
 
     def run(job):
         name, pq, k, adj = job
@@ -538,7 +538,7 @@ def strict_validation(binary, d, tier, sd):
     """Implementation -> CONCRETE specification (GcArenaTrace.tla): random-driver executions are replayed in
     GcHeap.tla with the operators TLC model-checks; every logged internal snapshot must equal the model's state."""
     import re
-    n, runs, steps = (2, 1, 50) if tier == "quick" else (12, 2, 120)
+    n, runs, steps = (2, 1, 50) if tier == "quick" else (6, 1, 120)
 
     def one(k):
         tr = os.path.join(d, f"strict.{k}.ndjson")
@@ -601,7 +601,7 @@ def pacing_engine(tier, d):
                 t = os.path.join(d, f"pac_{name}.{profile}.{i}.trace.ndjson")
                 if t not in {v["trace"] for v in res["viol"]} and os.path.exists(t):
                     os.remove(t)
-        shards, per, steps = (8, 40, 150) if tier == "quick" else (16, 600, 250)
+        shards, per, steps = (8, 40, 150) if tier == "quick" else (16, 150, 200)
         rr = random_runs(binary, d, f"random.{profile}", shards, per, steps, seed())
         replays[f"random:{profile}"] = rr
     strict = strict_validation(build_harness("debug"), d, tier, seed())
